@@ -1054,6 +1054,10 @@ impl EntryScanner<'_> {
         &mut self,
         write: &mut usize,
     ) -> Result<(), EntryError> {
+        // There needs to be a token. Otherwise we would run past the end of
+        // the entry or the end of the buffer.
+        self.zonefile.buf.require_token()?;
+
         let start = *write;
         *write += 1;
         let latest = *write + 255; // If write goes here, charstr is too long
